@@ -205,3 +205,10 @@ Proof.
   split; [apply match_inj_b_sound; vm_compute; reflexivity|].
   vm_compute. repeat split; reflexivity.
 Qed.
+
+(* ex8: the constructor argument uses the LAST of two same-signature methods (9 = len "ab" + 7), C05 prescribes the first (3) *)
+Lemma ex8_func_last :
+  run_to ex8 (VPtr ex8_v) = Ok (VPtr (VStruct [("ratio", VInt 9)]))
+  /\ want15_to ex8 (VPtr ex8_v) = Some (VPtr (VStruct [("ratio", VInt 3)]))
+  /\ pair_guard15 (ps_env ex8) (ps_fuel ex8) (ps_jobs ex8) = false.
+Proof. vm_compute. repeat split; reflexivity. Qed.
